@@ -48,6 +48,7 @@ type vfGrpCase struct {
 	Faults    map[string][]vfFault `json:"faults,omitempty"`
 	Delays    map[string][]int     `json:"delays,omitempty"`
 	C12       *vfC12Ctl            `json:"c12,omitempty"`
+	Retention bool                 `json:"retention,omitempty"` // Consumer.Offsets.Retention set: commits go out as OffsetCommit v2
 }
 
 type vfGrpEvent struct {
@@ -147,6 +148,7 @@ func (h *vfGrpHandler) ConsumeClaim(s ConsumerGroupSession, cl ConsumerGroupClai
 
 func vfGenGrpCase(t *rapid.T) *vfGrpCase {
 	c := &vfGrpCase{Strategy: rapid.SampledFrom([]string{"range", "roundrobin", "sticky"}).Draw(t, "strategy")}
+	c.Retention = rapid.IntRange(0, 2).Draw(t, "retention") == 0
 	nT := rapid.IntRange(1, 2).Draw(t, "nTopics")
 	for ti := 0; ti < nT; ti++ {
 		nP := rapid.IntRange(1, 4).Draw(t, fmt.Sprintf("t%d.parts", ti))
@@ -297,6 +299,9 @@ func (c *vfGrpCase) config(run *vfGrpRun, m int) *Config {
 	conf.Consumer.Offsets.Initial = OffsetOldest
 	conf.Consumer.Offsets.AutoCommit.Enable = true
 	conf.Consumer.Offsets.AutoCommit.Interval = 2 * time.Millisecond
+	if c.Retention {
+		conf.Consumer.Offsets.Retention = 90 * time.Second
+	}
 	conf.Consumer.Group.Session.Timeout = 200 * time.Millisecond
 	conf.Consumer.Group.Heartbeat.Interval = 3 * time.Millisecond
 	conf.Consumer.Group.Rebalance.Timeout = 200 * time.Millisecond
@@ -767,6 +772,7 @@ func vfOracleGrp(run *vfGrpRun, r *vfcore.Rec) *vfcore.Failure {
 		}
 	}
 	r.Class("strategy=" + c.Strategy)
+	r.Classf("retention=%v", c.Retention)
 	r.Classf("members=%d", len(c.Members))
 	r.Classf("sessions=%d", sessions)
 	if disturbed {
